@@ -23,6 +23,7 @@ RULES_DOC = dict(common.SHARED_DOC)
 RULES_DOC["X4"] = common.X4_DOC
 RULES_DOC["X5"] = common.X5_DOC
 RULES_DOC["R7"] = "batch push (ABT_pool_push_threads[_ex]): handles are compacted into the unit buffer with one counter -- every store into the buffer is indexed by the counter that is incremented with it, and ABTI_pool_push_many receives that buffer and that counter (NULL handles are skipped without leaving holes or pushing unwritten slots)"
+RULES_DOC["R8"] = "unlinking a unit from a queue that keeps other units rewires BOTH neighbours (prev->next and next->prev): the list is circular, so the tail's forward link is part of the structure a later tail pop or remove reads"
 RULES_DOC.update({
     "R1": "queue mutators run under data::mutex (or in a PRIV-only function); every exit has the lock released",
     "R2": "thread_queue.h: is_empty / is_in_pool release-stores are coherent with num_threads on every path",
@@ -670,6 +671,35 @@ def rule_R7(P, rep):
                loc=F.loc(i), site="push_threads/compaction")
 
 
+def rule_R8(P, rep):
+    n = 0
+    for fn in ("thread_queue_pop_head", "thread_queue_pop_tail", "thread_queue_remove"):
+        F = P.fn(fn, "src/pool/thread_queue.h")
+        # the unit being unlinked: the value returned (pops) or the ABTI_thread * parameter (remove)
+        sel = seq.Sel(fields={"ABTI_thread::p_next", "ABTI_thread::p_prev", "thread_queue_t::num_threads"}, canon=True, locks=False)
+        for toks, kind, rv, rtxt in seq.sequences(F, sel, max_len=40):
+            if kind != "ret":
+                continue
+            dec = [t for t in toks if t[0] == "st" and t[1].endswith("::num_threads") and (t[2] in ("--", "-=") or str(t[3]).endswith("- 1"))]
+            if not dec:
+                continue            # empty queue / last unit (handled by R2) / error return
+            links = set()
+            for t in toks:
+                if t[0] != "st" or not t[1].startswith("ABTI_thread::"):
+                    continue
+                nd = F.nodes[t[-1]]
+                path = canon.rooted(F, nd["lh"])
+                if path.endswith("->p_prev->p_next"):
+                    links.add("prev->next")
+                if path.endswith("->p_next->p_prev"):
+                    links.add("next->prev")
+            n += 1
+            rep.ob("R8", "%s: a unit leaving a queue of several units is unlinked from both neighbours" % fn,
+                   links == {"prev->next", "next->prev"}, "only %s rewired (the other neighbour keeps pointing at the unit that left)" %
+                   sorted(links), loc="%s:%d" % (F.file, F.line), site="%s/unlink" % fn)
+    rep.need(n >= 3, "only %d unlinking paths found" % n)
+
+
 def run(P, rep, tier):
     common.rule_widths(P, rep, [('thread_queue_t', 'num_threads')])
     common.rule_X4(P, rep)
@@ -680,3 +710,4 @@ def run(P, rep, tier):
     rule_R4(P, rep)
     rule_R6(P, rep)
     rule_R7(P, rep)
+    rule_R8(P, rep)
